@@ -54,7 +54,7 @@ func evalC01(src []byte, cfg string) (o Outcome) {
 }
 
 func oracleC01() *Result {
-	r := &Result{Rule: "real parser.Parse under recover + watchdog (3 s + 40 µs/byte, solo re-run) + heap limit, versions x {callback, nil}; buffer compared with a copy. Generators: G-bytes exhaustive over a 27-symbol alphabet after 24 mode-entering prefixes (k=2 quick, k=3 thorough), every truncation of corpus snippets, byte mutations, random fragment soup, 16 nesting forms (braces, control structures, interpolation in quotes / backticks / heredoc, brackets, calls) at depths around every power of two up to 600 (thorough: every depth to 140 and around powers of two to 3000). Non-trivial = distinct non-empty input"}
+	r := &Result{Rule: "real parser.Parse under recover + watchdog (3 s + 40 µs/byte, solo re-run) + heap limit, versions x {callback, nil}; buffer compared with a copy. Generators: G-bytes exhaustive over a 27-symbol alphabet after 24 mode-entering prefixes (k=2 quick, k=3 thorough), every truncation of corpus snippets, byte mutations, random fragment soup, every (LALR state, lookahead token) pair reachable from the sentence corpus (prefix of a sentence that reaches the state + the token's lexeme + the rest), 16 nesting forms (braces, control structures, interpolation in quotes / backticks / heredoc, brackets, calls) at depths around every power of two up to 600 (thorough: every depth to 140 and around powers of two to 3000). Non-trivial = distinct non-empty input"}
 	rng := newRand("C01")
 	versions := "5.6,7.2,7.4"
 	k, nrand, nmut := 2, 3000, 6
@@ -102,6 +102,21 @@ func oracleC01() *Result {
 	}
 	for _, b := range genBytesRandom(rng, nrand, 60) {
 		add(b, "random")
+	}
+	// every (automaton state, lookahead token) pair the sentence corpus reaches: each cell of the LALR action lookup
+	var bases [][]byte
+	for _, s := range corpus {
+		bases = append(bases, s.Src)
+	}
+	bases = append(bases, cfgSentences(rng)...)
+	for _, fam := range []int{7, 5} {
+		v := "7.4"
+		if fam == 5 {
+			v = "5.6"
+		}
+		for _, b := range stateTokenInputs(fam, rng, bases) {
+			tasks = append(tasks, Task{Oracle: "C01", Cfg: v, Src: b, Tag: "state-x-token"})
+		}
 	}
 	// long inputs: time proportional to length, pools crossing block boundaries
 	long := bytes.Repeat([]byte("<?php $a = [1, 2, 3]; /* c */ echo \"x $a[0] {$b->c}\";\n?>\n"), 3000)
